@@ -121,6 +121,12 @@ func (c *conn) open(buf []byte) error {
 		return unix.Send(c.fd, buf, 0)
 	}
 
+	// Keep the reply behind any data that is already pending, to maintain the sequence of network packets.
+	if !c.outboundBuffer.IsEmpty() {
+		_, _ = c.outboundBuffer.Write(buf)
+		return nil
+	}
+
 	for {
 		n, err := unix.Write(c.fd, buf)
 		if err != nil {
